@@ -57,7 +57,7 @@ func safeCallee(g *Global, c *ssa.CallCommon, argIdx int) bool {
 	if isAtomicFn(callee) {
 		return true
 	}
-	if _, ok := externModels[callee.String()]; ok {
+	if _, ok := externModels[externName(callee)]; ok {
 		return true
 	}
 	if fc := g.cs.Funcs[fnID(callee)]; fc != nil && ((fc.CallsArg > 0 && fc.CallsArg-1 == argIdx) || (fc.MayCallArg > 0 && fc.MayCallArg-1 == argIdx)) {
